@@ -642,7 +642,7 @@ theorem undoAdded_cohD (n : Node) (D : List Nat) (idx : Nat) (hc : CohD n D) : C
 with a store error -/
 def dirtyOp (D : List Nat) (mode : Mode) (op : Op) (st : Status) : List Nat :=
   match op with
-  | .acl _ _ | .grp _ _ | .label _ _ | .fwrite _ => if st = .err "NoSpace" then mode.fab :: D else D
+  | .acl _ _ | .grp _ _ | .label _ _ | .fwrite _ | .vvs _ => if st = .err "NoSpace" then mode.fab :: D else D
   | _ => D
 
 theorem dirty_keep (D : List Nat) (j : Nat) (e : String) (he : e ≠ "NoSpace") :
@@ -721,6 +721,82 @@ theorem sessOp_fwrite_cohD (cfg : Cfg) (n : Node) (D : List Nat) (sid s : Nat) (
       have hD : mode.fab :: D = f.idx :: D := by rw [hidx]
       rw [hD]
       exact this
+
+/-- the record a fabric has in memory is stored as it is (SetVIDVerificationStatement): afterwards node
+and store agree on it; a failing store makes it dirty (it may have been dirty before) -/
+theorem cohD_store_current (n : Node) (D : List Nat) (f : Fabric) (hget : getFabric n f.idx = some f)
+    (hc : CohD n D) :
+    CohD (match storeFabric n f with
+        | (n, true) => ok n
+        | (n, false) => (n, .err "NoSpace")).1
+      (if (match storeFabric n f with
+        | (n, true) => ok n
+        | (n, false) => (n, Status.err "NoSpace")).2 = .err "NoSpace" then f.idx :: D else D) := by
+  have ⟨hfr, hst⟩ := storeFabric_spec n f
+  rcases hr : storeFabric n f with ⟨n2, b⟩
+  rw [hr] at hfr hst
+  simp only at hfr hst
+  have hget2 : ∀ i, getFabric n2 i = getFabric n i := by intro i; simp only [getFabric, hfr.fabrics]
+  have hex2 : exemptIdx n2 = exemptIdx n := by simp [exemptIdx, hfr.fs]
+  rcases hst with ⟨hb, hkv, _⟩ | ⟨hb, hkv, _⟩
+  · subst hb
+    simp only [ok]
+    have hne2 : (Status.ok = Status.err "NoSpace") = False := by simp
+    simp only [hne2, if_false]
+    refine ⟨fun i hi he hd => ?_, fun hn => ?_, fun a ha h0 h1 h2 h3 => ?_⟩
+    · rw [hget2, hkv, kvF_putFabric]
+      by_cases hif : i = f.idx
+      · simp only [hif, if_true]; exact hget
+      · simp only [hif, if_false]
+        exact hc.1 i hi (by rw [← hex2]; exact he) hd
+    · have := hc.2.1 (by rw [← hfr.fs]; exact hn)
+      rw [hfr.nets, hfr.managed, this, hkv]
+      simp [kvNets, KV.putFabric]
+    · by_cases haf : a.fab = f.idx
+      · right
+        rw [hget2, hkv, kvF_putFabric]
+        simp only [haf, if_true]; exact hget
+      · rcases hc.2.2 a (by rw [← hfr.fs]; exact ha) h0 h1 h2 h3 with hm | he
+        · exact Or.inl hm
+        · right
+          rw [hget2, hkv, kvF_putFabric]
+          simp only [haf, if_false]
+          exact he
+  · subst hb
+    simp only [if_true]
+    refine ⟨fun i hi he hd => ?_, fun hn => ?_, fun a ha h0 h1 h2 h3 => ?_⟩
+    · rw [hget2, hkv]
+      exact hc.1 i hi (by rw [← hex2]; exact he) (fun hm => hd (List.mem_cons_of_mem _ hm))
+    · have := hc.2.1 (by rw [← hfr.fs]; exact hn)
+      rw [hfr.nets, hfr.managed, this, hkv]
+    · rcases hc.2.2 a (by rw [← hfr.fs]; exact ha) h0 h1 h2 h3 with hm | he
+      · exact Or.inl (List.mem_cons_of_mem _ hm)
+      · right
+        rw [hget2, hkv]
+        exact he
+
+theorem sessOp_vvs_cohD (cfg : Cfg) (n : Node) (D : List Nat) (sid s : Nat) (mode : Mode) (hc : CohD n D) :
+    CohD (sessOp cfg n sid mode (.vvs s)).1 (dirtyOp D mode (.vvs s) (sessOp cfg n sid mode (.vvs s)).2) := by
+  simp only [dirtyOp]
+  unfold sessOp
+  by_cases h0 : mode.fab = 0
+  · simp only [h0, if_true]; rw [dirty_keep _ _ _ (by decide)]; exact hc
+  · simp only [h0, if_false]
+    cases hg : getFabric n mode.fab with
+    | none => simp only []; rw [dirty_keep _ _ _ (by decide)]; exact hc
+    | some f =>
+      have hidx := getFabric_idx hg
+      simp only []
+      by_cases hp : pendingFor n f.idx = true
+      · simp only [hp, if_true, ok]
+        have hne2 : (Status.ok = Status.err "NoSpace") = False := by simp
+        simp only [hne2, if_false]; exact hc
+      · have hp' : pendingFor n f.idx = false := by simpa using hp
+        simp only [hp', Bool.false_eq_true, if_false]
+        have := cohD_store_current n D f (by rw [hidx]; exact hg) hc
+        have hD : mode.fab :: D = f.idx :: D := by rw [hidx]
+        rw [hD]
+        exact this
 
 theorem sessOp_openW_cohD (cfg : Cfg) (n : Node) (D : List Nat) (sid s : Nat) (mode : Mode) (hc : CohD n D) :
     CohD (sessOp cfg n sid mode (.openW s)).1 D := by
@@ -1228,6 +1304,7 @@ theorem sessOp_cohD (cfg : Cfg) (n : Node) (D : List Nat) (sid : Nat) (mode : Mo
   | revoke s => exact sessOp_revoke_cohD cfg n D sid s mode hc
   | bcw s v => exact sessOp_bcw_cohD cfg n D sid s v mode hc
   | fwrite s => exact sessOp_fwrite_cohD cfg n D sid s mode hc
+  | vvs s => exact sessOp_vvs_cohD cfg n D sid s mode hc
   | _ => exact hc
 
 /-- the dirty set after one operation: a restart re-synchronises everything; a fabric-scoped write
